@@ -2,13 +2,14 @@
 """Writes /verif/MANIFEST.json from the table below (run from /verif)."""
 import json, subprocess
 
-HOOK_COMMITS = ["9496c38"]
+HOOK_COMMITS = ["9496c38", "6c99778"]
 
 COMMON_NOTE = ("Trusted base: the vsched runtime (each primitive implements a subset of the behaviours std documents for Mutex/Condvar/"
   "park/mpsc/spawn/join, so an explored execution is one real threads can produce), the harness interpreter and its stamping; the generator "
   "preconditions of DESIGN.md 5.2. Interleavings are explored at the granularity of those primitives; atomics inside the futures crate are "
   "atomic; no weak-memory effects. Search never establishes absence; bounds: <=4 objects, <=4 callers per phase, pool 0..3, <=~30 operations, "
-  "<=300 explicit schedule choices then a deterministic tail. Step-bound and pool-exhausted executions count as inconclusive.")
+  "<=300 explicit schedule choices then a deterministic tail. Step-bound and pool-exhausted executions count as inconclusive. "
+  "Simulated threads are coroutines: per-thread state in the tested code (none in the unmodified library) is only handled by the OS-thread mode that runs when an in-run violation does not reproduce in isolation (DESIGN.md 3.4); a violation that neither mode reproduces is INCONCLUSIVE (exit 2).")
 
 P = {
  "C01": ("occupancy oracle: at every closure/future start no other operation of the object is between its start and its completion-or-drop; every step re-checks ownership", "6/C01"),
@@ -32,7 +33,7 @@ P = {
 
 checks = []
 for pid, (text, ref) in P.items():
-    engine = "dv + sched_fuzz (thorough)" if pid != "C14" else "dv + asan_real; sched_fuzz (thorough)"
+    engine = "dv + sched_fuzz (thorough)" if pid not in ("C05", "C14") else "dv + asan_real; sched_fuzz (thorough)"
     checks.append({
         "property_id": pid,
         "quick_cmd": f"./check {pid} quick",
@@ -49,7 +50,7 @@ for pid, (text, ref) in P.items():
         },
         "level_note": COMMON_NOTE,
         "technique": ("property-based testing (proptest) with generated schedules on a controlled runtime; reference-model / history-invariant oracles; shrinking to a replay file; "
-                      "thorough tier adds coverage-guided fuzzing (libFuzzer) of the same cases" + ("; plus coverage-guided fuzzing of real-thread programs under AddressSanitizer" if pid == "C14" else "")),
+                      "thorough tier adds coverage-guided fuzzing (libFuzzer) of the same cases" + ("; plus coverage-guided fuzzing of real-thread programs under AddressSanitizer" if pid in ("C05", "C14") else "") + ("; plus the generated cases of the panic-containment profile judged by this property's oracle" if pid in ("C04", "C14", "C17") else "")),
     })
 
 m = {
@@ -65,7 +66,7 @@ m = {
  "engines": [
    {"name": "dv", "path": "/verif/dv", "serves_properties": sorted(P.keys()), "kind_free_text": "property-based testing harness (proptest TestRunner per worker, 16 workers) driving the real library on the vsched controlled runtime; stateful programs as op lists + interpreter; shrinking; replay"},
    {"name": "sched_fuzz", "path": "/verif/fuzz", "serves_properties": sorted(P.keys()), "kind_free_text": "cargo-fuzz / libFuzzer target (no sanitizer): bytes are decoded into (configuration, program, schedule), executed deterministically on vsched with the property's oracle inside the target; coverage feedback from the instrumented desync crate; used by every thorough tier"},
-   {"name": "asan_real", "path": "/verif/fuzz-asan", "serves_properties": ["C14"], "kind_free_text": "cargo-fuzz / libFuzzer target with AddressSanitizer (quick and thorough tiers of C14) and ThreadSanitizer (thorough tier, std rebuilt with -Zbuild-std) on the UNSHIMMED /repo build: generated multi-threaded programs with real threads and block_on; heap canaries"},
+   {"name": "asan_real", "path": "/verif/fuzz-asan", "serves_properties": ["C05", "C14"], "kind_free_text": "cargo-fuzz / libFuzzer target with AddressSanitizer (quick and thorough tiers of C05 and C14) and ThreadSanitizer (thorough tier, std rebuilt with -Zbuild-std) on the UNSHIMMED /repo build: generated multi-threaded programs with real threads and block_on; heap canaries"},
    {"name": "vsched", "path": "/verif/vsched", "serves_properties": sorted(P.keys()), "kind_free_text": "deterministic coroutine-based replacement for std Mutex/Condvar/thread/mpsc; the generated schedule picks the next task at every visible operation"},
  ],
  "checks": checks,
